@@ -43,6 +43,7 @@ Outcome(e) ==
         ret == e.ret
     IN
     IF e.ret.t = "hang" THEN "the call into the module did not return (the Node process had to be killed)"
+    ELSE IF e.ret.t = "loadfail" THEN "the module / the package's entry module does not initialise (an expected export is missing?)"
     ELSE IF e.ret.t \in {"missing", "nofunction", "exception"} THEN "the call did not return a value (missing export or exception)"
     ELSE IF ~Marshals(e) THEN (IF IsErr(ret) THEN "ok" ELSE "a call with an argument of the wrong type or count is not answered with an error: string")
     ELSE CASE e.fn = "generateHOTP" ->
